@@ -403,7 +403,7 @@ def _is_max_of_abs_sums(e):
         return False
 
     def sum_of_abs(x):
-        if x[0] == 'red' and x[1] in ('acc', 'sum'):
+        if x[0] == 'red' and x[1] in ('acc', 'sum', 'fold'):
             return all(sum_of_abs(y) for y in x[2])
         if x[0] == 'b' and x[1] == 'Add':
             return sum_of_abs(x[2]) and sum_of_abs(x[3])
